@@ -125,6 +125,8 @@ pub struct Dump {
     pub node_labels: Vec<Vec<String>>,
     pub node_props: Vec<BTreeMap<String, PV>>,
     pub rank: HashMap<u64, usize>,
+    /// per node: keys whose row copy and column copy differ
+    pub clash_keys: Vec<Vec<String>>,
     /// what the model's `St` has no place for: incoming adjacency (both tiers), the store's own
     /// node / relationship counters, relationship-type index sizes — compared verbatim where
     /// a store must be *unchanged*
@@ -184,6 +186,7 @@ pub fn dump_store_ordered(store: &GraphStore, tail: &[u64]) -> Dump {
     let mut nodes_txt = vec![];
     let mut node_labels = vec![];
     let mut node_props = vec![];
+    let mut clash_keys: Vec<Vec<String>> = vec![];
     for id in &order {
         let vs = &versions[id];
         let cur = vs[vs.len() - 1];
@@ -203,6 +206,12 @@ pub fn dump_store_ordered(store: &GraphStore, tail: &[u64]) -> Dump {
             if hist.is_empty() { "-".to_string() } else { hist.join("/") }
         ));
         let merged: BTreeMap<String, PV> = store.node_properties_merged(cur.id).into_iter().collect();
+        clash_keys.push(
+            col.iter()
+                .filter(|(k, v)| cur.properties.get(*k).map_or(false, |rv| pv_text(rv) != pv_text(v)))
+                .map(|(k, _)| k.clone())
+                .collect(),
+        );
         node_labels.push(labels);
         node_props.push(merged);
     }
@@ -292,7 +301,7 @@ pub fn dump_store_ordered(store: &GraphStore, tail: &[u64]) -> Dump {
         store.edge_count(),
         lidx.len()
     );
-    Dump { text, n_nodes: order.len(), n_edges: edges.len(), multi_version, node_labels, node_props, rank, aux, consistent }
+    Dump { text, n_nodes: order.len(), n_edges: edges.len(), multi_version, node_labels, node_props, rank, clash_keys, aux, consistent }
 }
 
 /// store text without the trailing `|<next>.<next>` counters and with the per-node history
